@@ -294,7 +294,7 @@ Fixpoint render (c : ctx) (p : pz) (t : term) {struct t} : res (str * pz) :=
          end);
       let s := s ++ spag in
       let s := paren_if (subquery c1) s in
-      Ok (alias_if (with_alias c1) c1 s (if str_truthy alias then alias else Some (L """_table_name""")), p5)
+      Ok (alias_if (with_alias c1) c1 s alias, p5)
   end
 
 with render_o (c : ctx) (p : pz) (o : oterm) {struct o} : res (option str * pz) :=
